@@ -160,9 +160,10 @@ func toChunk(peer *Peer, index uint32, begin uint32) uint32 {
 }
 
 func fromChunk(peer *Peer, chunk uint32) (uint32, uint32) {
-	ps := peer.Pieces.PieceSize()
-	index := chunk / (ps / config.ChunkSize)
-	begin := (chunk * config.ChunkSize) % ps
+	cpp := peer.Pieces.PieceSize() / config.ChunkSize
+	index := chunk / cpp
+	// don't compute chunk * ChunkSize, it overflows beyond 4GiB
+	begin := (chunk % cpp) * config.ChunkSize
 	return index, begin
 }
 
